@@ -49,7 +49,7 @@ def judge(ctx, trace, name="mon"):
 
 
 def run(ctx):
-    tier, rng = ctx.tier, ctx.rng
+    tier, rng = ctx.tier, ctx.sub_rng("fam_loglim.1")
     I = 3 if tier == "quick" else 4
     consts = dict(Interval=I, Msgs={'"a"', '"b"', '""'}, MaxTime=4 * I + (0 if tier == "quick" else 3),
                   Steps=set(range(0, I + 2)))
@@ -61,17 +61,18 @@ def run(ctx):
     r = ctx.tlc("replay", "LogReplay", mkcfg(init="RInit", next_="RNext", constants=consts),
                 args=["-dump", "dot,actionlabels", "graph"], timeout=600, heap="4g", expect_ok=True)
     inits, nodes, edges = vlib.parse_dot(os.path.join(r["dir"], "graph.dot"))
-    paths, ne = vlib.transition_cover(inits, nodes, edges, maxlen=40, rng=rng)
+    paths, ne = vlib.transition_cover(inits, nodes, edges, maxlen=40, rng=ctx.sub_rng("loglim.cover"))
     scripts = []
+    crng = ctx.sub_rng("loglim.coverunits")
     for p in paths:
-        unit = rng.choice([1, 1000, 20000])     # model time unit in ms; Interval = I units
+        unit = crng.choice([1, 1000, 20000])     # model time unit in ms; Interval = I units
         t, steps = 0, []
         for x in p:
             e = nodes.get(x)
             if not e:
                 continue
             t += e["dt"] * unit
-            steps.append(dict(msg=e["msg"], now=t, printf=rng.random() < 0.3))
+            steps.append(dict(msg=e["msg"], now=t, printf=crng.random() < 0.3))
         scripts.append(dict(interval=I * unit, steps=steps))
     ncover = len(scripts)
     nrand = 200 if tier == "quick" else 3000
